@@ -220,7 +220,13 @@ func runHistory(h *historyT, drv *hx.Driver, st *stepStats, fpCheck bool) (*divT
 			vars := parseVars(o.Vars)
 			var got, want string
 			if p := safeDo(func() {
-				got = resultJSON(graphql.ExecutePlan(pl.pr.Plan, graphql.ExecuteParams{Schema: *pl.schema, Args: mergeArgs(vars, pl.pr.SynthArgs)}))
+				// a plan is bound to the schema it was planned against (plan.go: "p.Schema is ignored"): every third
+				// re-execution passes whatever schema the slot holds now, and must still answer like the plan's own schema
+				ps := pl.schema
+				if o.ID%3 == 0 {
+					ps = schemas[o.ID%2]
+				}
+				got = resultJSON(graphql.ExecutePlan(pl.pr.Plan, graphql.ExecuteParams{Schema: *ps, Args: mergeArgs(vars, pl.pr.SynthArgs)}))
 				want = resultJSON(graphql.Do(graphql.Params{Schema: *pl.schema, RequestString: pl.q, OperationName: pl.op, VariableValues: vars}))
 			}); p != nil {
 				return &divT{Step: i, Kind: "panic", Note: fmt.Sprint("panic while re-executing a prepared plan: ", p)}, nil
@@ -601,9 +607,6 @@ func genHistory(r *hx.Rng, thorough bool) (historyT, *genPool) {
 	want := r.Range(6, 30)
 	for len(gp.entries) < want {
 		f := fams[r.Intn(len(fams))]
-		if h.Mode == "norm-safe" && f[0].Family == "unsafe" {
-			continue
-		}
 		a := r.Intn(len(f))
 		b := (a + 1 + r.Intn(len(f)-1)) % len(f)
 		for _, e := range []poolEntry{f[a], f[b]} {
@@ -719,6 +722,7 @@ func runProbes() map[string]interface{} {
 	out := map[string]interface{}{}
 	probes := []probe{
 		{"D-06b normDirective", `{ tag @skip(if: true) echo(i: 1) }`, `{ tag echo(i: 1) }`, nil},
+		{"D-06b' normDirectiveArgument (N2)", `{ tag @skip(if: 1) }`, `{ tag @skip(if: false) }`, nil},
 		{"D-06c normVarDefault", `query Q($x: Int = 1) { echo(i: $x) }`, `query Q($x: Int = 2) { echo(i: $x) }`, nil},
 		{"D-06d normEnumOrCustomLiteral", ``, `{ echo(e: GREEN) }`, nil},
 		{"D-06d' normInputObjectLiteral", ``, `{ echo(o: {y: 1}) }`, nil},
@@ -773,7 +777,7 @@ func main() {
 	defer drv.Close()
 	run.Res.Rule = "histories of Get / ExecutePlan / Reset / schema replacement (two slots, same shape, new pointer per replacement) over a pool of 6-30 requests drawn as near-miss pairs from nine families (one literal, one alias, argument order/name, operation names, text imitating the key encodings incl. \\x00 and multi-byte, variables + dynamic directives, object/list/interface/union/fragment shapes, rejected requests, normaliser-unsafe shapes), caps {1,2,3,5,default}, MaxQueryBytes {default,40,64} with over-size and at-limit twins, nil cache 1/25; modes raw 60% / norm-safe 20% / norm-any 20%; non-trivial = the history has a hit and at least one of eviction, schema-guard miss, reset, bypass, re-execution of a stale plan; distinct by the whole history"
 	run.Res.Assumptions = []string{
-		"Normalize=true is compared with graphql.Do only on histories whose whole pool lies in the class expected to work (mode norm-safe: no directives, no variable defaults, no enum / input-object / custom-scalar literals, no repeated response key with literal arguments, no user variable named __pcvN, no crafted string literal under an abstract type or inside a fragment that imitates the fingerprint encoding); in mode norm-any only the model correspondence (hit/miss, keys, bound), document immutability, SynthArgs ownership and the fingerprint model are checked",
+		"Normalize=true is compared with graphql.Do on every history (modes norm-safe and norm-any draw from the same pool since the repairs of D-06b…g; norm-any additionally skips the response comparison and checks only the model correspondence, document immutability, SynthArgs ownership and the fingerprint model)",
 		"the response comparison is byte equality of json.Marshal(result) (data and errors with messages, locations, paths) between ExecutePlan(plan from the cache, args ∪ SynthArgs) and graphql.Do on the same schema object",
 	}
 
